@@ -76,7 +76,11 @@ impl<T: El> SetMon<T> {
         let st = self.set.verif_state();
         if let Some(o) = &st.old {
             if o.cursor_remaining != o.table.len {
-                viol!("C05", "cached iterator believes {} elements remain but the old table holds {} after {}", o.cursor_remaining, o.table.len, op.encode());
+                return Err(Viol {
+                    prop: "C05",
+                    more: if o.cursor_remaining > o.table.len { cursor_more(op.code) } else { &[] },
+                    msg: format!("cached iterator believes {} elements remain but the old table holds {} after {}", o.cursor_remaining, o.table.len, op.encode()),
+                });
             }
             if std::mem::size_of::<T>() != 0 {
                 if let Some((mut c, mut f)) = self.set.verif_cursor() {
